@@ -190,8 +190,11 @@ def rule_ctx_agreement(facts, rid):
         t8.examined(name, True, {"term": name, "run": sorted(r), "paths": sorted(p), "update": sorted(u)})
         if r != p:
             t8.violate(f"ctx/{name}/paths", f"{name}: the value evaluator applies {sorted(r)} to the context, the path evaluator {sorted(p)}: the same term sees different bindings (and keeps different ones alive) in the two modes")
-        if not r <= u and u:
-            t8.violate(f"ctx/{name}/update", f"{name}: the value evaluator applies {sorted(r)} to the context, the update evaluator only {sorted(u)}")
+        # the update evaluator is built differently (it threads an update function, and re-creates contexts elsewhere), so only
+        # the operations that drop or replace bindings are compared with it: those it must apply as well
+        DROPS = {x for x in r if re.search(r"^(skip|drop|truncate|with)_", x)}
+        if not DROPS <= u and u:
+            t8.violate(f"ctx/{name}/update", f"{name}: the value evaluator applies {sorted(DROPS)} to the bindings of the context, the update evaluator only {sorted(u)}")
     return t8
 
 
